@@ -164,13 +164,20 @@ def _worker_chunk(args) -> list:
     if status == "exc":
         return [{"index": args[3][0], "harness_error": value}]
     prop = load_prop(args[0])
-    if getattr(prop, "CRASH_IS_UNDECIDED", False):
-        # the code under test can corrupt memory: rerun the chunk one run per child and attribute the crash
+    hung = value == 256  # exit code 1: the watchdog (faulthandler) ended a run that sat in one C call beyond the wall cap
+    if getattr(prop, "CRASH_IS_UNDECIDED", False) or hung:
+        # the code under test can corrupt memory (C12), or one run hung: rerun the chunk one run per child and
+        # attribute the death to the run that causes it - that run is undecided, never a verdict
         out = []
         for index in args[3]:
             st, val = in_child(_chunk_body, (args[0], args[1], args[2], [index]))
             if st == "ok":
                 out.extend(val)
+            elif st == "exc" or (val != 256 and not getattr(prop, "CRASH_IS_UNDECIDED", False)):
+                out.append({"index": index, "harness_error": f"run child died (wait status {val})"})
+            elif val == 256:
+                out.append({"index": index, "rs": core.run_seed(args[1], args[0], index), "digest": "timeout", "violations": [],
+                            "stats": {"undecided:run-timeout": 1}, "sigs": [], "nsteps": 0, "chunk_start": index})
             else:
                 out.append({"index": index, "rs": core.run_seed(args[1], args[0], index), "digest": "crashed", "violations": [],
                             "stats": {"undecided:crashed": 1}, "sigs": [], "nsteps": 0, "chunk_start": index})
